@@ -5,6 +5,7 @@ import (
 	"go/token"
 	"go/types"
 	"strings"
+	"unicode/utf8"
 
 	"verif/smt"
 )
@@ -653,6 +654,43 @@ func SelfTestRuneIter() (checked int, mismatch string) {
 	rec = func(prefix []byte, n int, alphabet []byte) string {
 		if n == 0 {
 			return check(prefix)
+		}
+		for _, b := range alphabet {
+			if m := rec(append(append([]byte{}, prefix...), b), n-1, alphabet); m != "" {
+				return m
+			}
+		}
+		return ""
+	}
+	for n, alphabet := range [][]byte{nil, all, all, edges, edges} {
+		if m := rec(nil, n, alphabet); m != "" {
+			return checked, m
+		}
+	}
+	return checked, ""
+}
+
+// SelfTestUTF8Valid compares the validity formula with utf8.Valid on the byte strings of
+// SelfTestRuneIter's shape (all strings of up to two bytes, edge bytes for three and four).
+func SelfTestUTF8Valid() (checked int, mismatch string) {
+	edges := []byte{0x00, 0x41, 0x7F, 0x80, 0x8F, 0x90, 0x9F, 0xA0, 0xBF, 0xC0, 0xC1, 0xC2, 0xDF, 0xE0, 0xE1, 0xEC, 0xED, 0xEE, 0xEF, 0xF0, 0xF1, 0xF3, 0xF4, 0xF5, 0xFF}
+	var all []byte
+	for b := 0; b < 256; b++ {
+		all = append(all, byte(b))
+	}
+	var rec func(prefix []byte, n int, alphabet []byte) string
+	rec = func(prefix []byte, n int, alphabet []byte) string {
+		if n == 0 {
+			ts := make([]*smt.Term, len(prefix))
+			for k, b := range prefix {
+				ts[k] = smt.BV(uint64(b), 8)
+			}
+			got := utf8ValidTerm(ts)
+			if !(got.IsTrue() || got.IsFalse()) || got.IsTrue() != utf8.Valid(prefix) {
+				return fmt.Sprintf("UTF-8 validity of % x: formula %v, runtime %v", prefix, got, utf8.Valid(prefix))
+			}
+			checked++
+			return ""
 		}
 		for _, b := range alphabet {
 			if m := rec(append(append([]byte{}, prefix...), b), n-1, alphabet); m != "" {
